@@ -13,9 +13,21 @@ CHECKS = {
  "C06": ("reng", "exploration", "runtime monitoring: revert-on-copy image comparison of every retained user snapshot at quiescent points",
          "Held on the generated histories: at every quiescent point the image of every retained user-created snapshot, obtained by reverting an extent-exact copy of the directory with the real code, equals the image recorded at creation; in-place reverts are compared with the image as well.",
          "Reclamation on in 80% of cases; automatic snapshots are not verdict-bearing.", "DESIGN.md 4/C06"),
+ "C10": ("reng", "exploration", "runtime monitoring: counter model compared after every step; concurrent writers with bounds on concurrent samples",
+         "Held on the generated histories: cached and persisted revision counter equal a model (+1 per applied write in RW, +0 in WO, explicit sets only in RW) after every step, across reopen, and under 2-16 concurrent writers (final == initial + N*M, concurrent samples between completed and issued).",
+         "Crash points of the counter update are covered by C08; promotion equalisation by the controller engine.", "DESIGN.md 4/C10"),
  "C11": ("reng", "exploration", "runtime monitoring: cleaner-filter output checked against the property's predicate + before/after image comparison around deletions",
          "Held on the generated histories: every name returned by the real candidate filter satisfies the property's predicate on the model chain; deletions through the cleaner route and the user route leave the live image and all retained user snapshots unchanged.",
          "The 60 s ticker loop is not run; its body is executed through the same exported functions.", "DESIGN.md 4/C11"),
+ "C12": ("reng", "exploration", "runtime monitoring: chain well-formedness + model equality after every valid and hostile management request, and across close/open",
+         "Held on the generated request sequences: after every request (valid, refused or no-op) the chain equals the model chain, is a simple path whose members all have data and metadata files, attributes and full read are unchanged by refused requests, and close+open reproduces chain, attributes, size, checkpoint and data.",
+         "Replica-level API (what the REST handlers call); REST-level malformed input is C14's.", "DESIGN.md 4/C12"),
+ "C16": ("reng", "exploration", "runtime monitoring: model comparison around resize requests (grow / shrink / garbage) incl. snapshot images and reopen",
+         "Held on the generated histories: growth keeps the old range and every snapshot image, the added range reads zero and accepts writes, the size survives reopen; shrink, garbage, empty and zero sizes are refused and change nothing.",
+         "Replica side on the real engine; the controller side of Resize is exercised by the controller engine.", "DESIGN.md 4/C16"),
+ "C17": ("reng", "exploration", "runtime monitoring: state-walk with every operation probed in every state, side effects detected by directory hash and counter",
+         "Held on the generated walks over closed / open-without-mode / RW / WO: I/O and management calls fail on a closed replica without touching the directory, writes are applied only in RW/WO, chain surgery and counter updates are refused outside RW without side effects.",
+         "Engine-level gates; the REST action table and the attach-only-when-closed clause are checked by the REST engine.", "DESIGN.md 4/C17"),
 }
 
 NOT_YET = "check not built yet in this round (see DESIGN.md build order); no verdict claimed"
